@@ -17,7 +17,7 @@ MISMATCH_FN = "mismatch current_cfg"
 VIOLATES_FN = "violates"
 RULE = ("diff cases = one generated history of 9-13 blocks (oracle prevote/vote by 3 validators, sudo EditSudoers with 3-6 "
         "contracts, EVM transfers / deploys / calls writing 1-5 slots and paying 0-4 fresh accounts, FunToken create/convert, "
-        "precompile calls, tokenfactory, authz grant/exec, delegate, bank send/multisend, day jumps for epochs+inflation) "
+        "precompile calls, single txs that pay 2-12 fresh accounts and THEN call a Nibiru precompile (intermediate StateDB commit), tokenfactory, authz grant/exec, delegate, bank send/multisend, day jumps for epochs+inflation) "
         "executed on 3 replicas from one genesis through BeginBlock/DeliverTx/EndBlock/Commit, compared per block on app hash, "
         "tx results and validator updates; non-trivial = the history successfully ran a multi-contract sudo edit AND an oracle "
         "vote round AND (an EVM call/deploy or a bank multisend that creates >= 2 accounts in one tx). Sub-model cases (sudo, "
@@ -85,7 +85,7 @@ def nontrivial(rec):
     t = inp["t"]
     if t == "diff":
         k = obs.get("kinds", {})
-        multi_acct = k.get("call/ok", 0) + k.get("multisend/ok", 0) + k.get("deploy/ok", 0) > 0
+        multi_acct = k.get("call/ok", 0) + k.get("multisend/ok", 0) + k.get("deploy/ok", 0) + k.get("callpc/ok", 0) > 0
         return k.get("sudo/ok", 0) > 0 and k.get("oracle/ok", 0) >= 4 and multi_acct
     if t == "sudo":
         return any(ob["ok"] and len(ob["after"]) >= 2 for ob in obs["steps"])
@@ -178,7 +178,10 @@ def model_search(chk):
     orc = {"t": "diff", "child": True, "blocks": [
         {"dt": 5, "ops": [{"kind": "oracle", "a": v, "b": 0, "c": 0, "l": [100 + (3 * b + v) % 7, 110 + (b + 2 * v) % 5, 0 if (b + v) % 4 == 0 else 105]}
                           for v in range(3)] + [{"kind": "delegate", "a": b % 4, "b": b % 3, "c": 1}]} for b in range(13)]}
-    return [sudo, evmh, orc]
+    pch = {"t": "diff", "child": True, "blocks": [
+        {"dt": 5, "ops": [{"kind": "deploy", "a": 0, "b": 2, "c": 12, "l": [1]}]}] + [
+        {"dt": 5, "ops": [{"kind": "callpc", "a": b, "b": 0, "c": 16 * (9000 + 20 * b), "l": [b]}]} for b in range(1, 7)]}
+    return [pch, sudo, evmh, orc]
 
 
 MANIFEST = {
